@@ -75,6 +75,12 @@ CHECKS['C13'] = dict(
     note='bounded: <=3 (4) handles, <=5 (6) operations, 3 token kinds; state compared through digests',
     ref='6/C13')
 
+CHECKS['C12'] = dict(
+    technique='TLA+ model of the cache protocol (reader steps, non-atomic writer with crash points, truncation/corruption classes, import edits, build histories) model-checked with TLC; real file states (every truncation offset, byte substitutions, files for other keys) executed in killable children and judged by the reader of the specification',
+    text='TLC proves on all histories of <=3 (4) builds over 3 keys and 2 import contents with crashes between writer steps, truncation and corruption of each segment that every served parser is the one an uncached build gives, except in the single file state header+used-files intact / body payload altered (exhibited as counterexample), that no parser for another key is ever served and that an uninterrupted build leaves a valid entry; the real constructor is then run on real files - truncated at every offset (every 5th beyond 140 in quick), single-byte substitutions, entries written for another grammar, option set (incl. sets differing only in a falsy value or in import_paths), import content and lark version, random histories - each construction in a forked child killed on timeout, and TraceCache.tla judges raised/hang/served behaviour/recompilation/validity of the file afterwards.',
+    note='behaviour compared on 9 probe inputs with positions and meta; two known findings (altered body served; pickle can block)',
+    ref='6/C12')
+
 NOT_APPLICABLE = []
 
 
